@@ -32,7 +32,7 @@ C19_FStr  == [SD("fstr", Atom("s", "x{1}"), <<>>) EXCEPT !.form = "tag"]
 C19_Imp   == [SD("import", Atom("s", "os.path"), <<>>) EXCEPT !.form = "tag"]
 C19_Incl  == [SD("include", NoVal, <<<<IKey(0), C19_S("x.yaml")>>>>) EXCEPT !.form = "tag"]
 C19_ReqMd == [C19_Req EXCEPT !.form = "md", !.md = {<<"m", Atom("i", "1")>>}, !.pr = 1]
-C19_KindLeaves == {C19_Req, C19_XRef, C19_Prev, C19_Clear, C19_Eval, C19_FStr, C19_Imp, C19_Incl, C19_ReqMd}
+C19_KindLeaves == {C19_Req, C19_XRef, C19_Prev, C19_Clear, C19_Eval, C19_Imp, C19_Incl, C19_ReqMd}
 
 \* node-kind containers
 C19_Call(args) == [SD("call", NoVal, args) EXCEPT !.fn = "vmod.rec", !.form = "tag"]
@@ -56,6 +56,13 @@ C19_X == C19_Deco(UNION {{SD("dict", NoVal, <<<<C19_KA, y>>>>),
                       C19_App(<<<<IKey(0), y>>>>), C19_Ext(<<<<IKey(0), y>>>>)} : y \in C19_Y}
          \cup {C19_Path}
 C19_Parsed == SetToSeq({SD("dict", NoVal, <<<<C19_KA, x>>>>) : x \in C19_X})
+\* quick tier: one mapping shape and one list shape per third-level node
+C19_XQ == C19_Deco(UNION {{SD("dict", NoVal, <<<<C19_KA, y>>>>),
+                           SD("list", NoVal, <<<<IKey(0), y>>, <<IKey(1), C19_L("2")>>>>)} : y \in C19_Y})
+          \cup UNION {{C19_Call(<<<<C19_KA, y>>>>), C19_Bind(<<<<C19_KA, y>>, <<IKey(0), C19_L("2")>>>>), C19_CallMd(<<<<C19_KA, y>>>>),
+                       C19_App(<<<<IKey(0), y>>>>)} : y \in C19_Y}
+          \cup {C19_Path}
+C19_ParsedQ == SetToSeq({SD("dict", NoVal, <<<<C19_KA, x>>>>) : x \in C19_XQ})
 
 \* a small set for the runs with mutations / edits / both safe flags
 C19_YS == TagAll({C19_L("1")}, {"none", "force", "notnew"}) \cup {C19_Req, C19_XRef}
@@ -107,8 +114,11 @@ C19_New == {SD("dict", NoVal, <<<<C19_KA, c>>>>) :
 C19_OldSubQ == {C19_L("1"), WithTag(C19_L("1"), "force"), SD("dict", NoVal, <<<<C19_KA, WithTag(C19_L("1"), "force")>>>>),
                 WithTag(SD("dict", NoVal, <<<<C19_KA, C19_L("1")>>>>), "force"), C19_Call(<<<<C19_KA, C19_L("1")>>>>)}
 C19_OldQ == {SD("dict", NoVal, <<<<C19_KA, c>>>>) : c \in MapsOver(<<C19_KA, C19_KB>>, C19_OldSubQ) \ {SD("dict", NoVal, <<>>)}}
-C19_HistQ == SetToSeq(C19_OldQ) \o SetToSeq(C19_New)
-C19_HistRangeQ == << <<1, Cardinality(C19_OldQ)>>, <<Cardinality(C19_OldQ) + 1, Cardinality(C19_OldQ) + Cardinality(C19_New)>> >>
+C19_NewQ == {SD("dict", NoVal, <<<<C19_KA, c>>>>) :
+               c \in TagAll(MapsOverMax(<<C19_KA, C19_KB>>, C19_NewSub, 1) \ {SD("dict", NoVal, <<>>)}, {"none", "del", "merge", "notnew", "unsafe"})
+                     \cup {C19_MdAll(SD("dict", NoVal, <<<<C19_KB, C19_L("2")>>>>)), WithTag(SD("dict", NoVal, <<>>), "del")}}
+C19_HistQ == SetToSeq(C19_OldQ) \o SetToSeq(C19_NewQ)
+C19_HistRangeQ == << <<1, Cardinality(C19_OldQ)>>, <<Cardinality(C19_OldQ) + 1, Cardinality(C19_OldQ) + Cardinality(C19_NewQ)>> >>
 C19_Hist  == SetToSeq(C19_Old) \o SetToSeq(C19_New)
 C19_HistRange == << <<1, Cardinality(C19_Old)>>, <<Cardinality(C19_Old) + 1, Cardinality(C19_Old) + Cardinality(C19_New)>> >>
 
